@@ -241,6 +241,31 @@ def run(ck, m):
     ck.ob("R6", inst_form, a == b and len(a) >= 2, f"the two forms validate differently: class form {a} vs instance form {b}", stmt="set_render_method: sibling validation")
     ck.ob("R6", cls_form, any("<C>._render_methods" in y for x in a for y in x), "validation must be against the receiver class's _render_methods", stmt="set_render_method: validates against _render_methods")
 
+    # which form of a class/instance method runs is decided by the descriptor: when it tests the *truth value* of the instance (`if instance:`), no image
+    # class may define its own truth value (__bool__ / __len__) - a falsy instance (closed, empty) would be served the class form, and
+    # `closed_image.set_render_method(x)` would rewrite the class-wide setting
+    descs = [(q_, fn_) for rel_, q_, fn_ in m.functions() if rel_ == "utils.py" and fn_.name == "__get__" and len(fn_.args.args) >= 2]
+    ck.expect(len(descs) >= 1, "utils.py: descriptor __get__ methods not found")
+    truthy = []
+    for q_, fn_ in descs:
+        inst = fn_.args.args[1].arg
+        for t_ in body_walk(fn_):
+            tests_ = [t_.test] if isinstance(t_, (ast.If, ast.IfExp, ast.While)) else []
+            for tt_ in tests_:
+                for v_ in flatten_boolop(tt_, ast.And) + flatten_boolop(tt_, ast.Or):
+                    v0 = v_.operand if isinstance(v_, ast.UnaryOp) and isinstance(v_.op, ast.Not) else v_
+                    if isinstance(v0, ast.Name) and v0.id == inst:
+                        truthy.append(q_)
+    ck.extra["descriptors_testing_instance_truth"] = sorted(set(truthy))
+    if truthy:
+        for rel_, q_, cls_ in m.classes():
+            if not rel_.startswith(("image/", "widget/")):
+                continue
+            for st_ in cls_.body:
+                if isinstance(st_, ast.FunctionDef) and st_.name in ("__bool__", "__len__"):
+                    uses_desc = any(rel2 == CM for rel2, _q2, _c2 in m.classes())
+                    ck.ob("R6", st_, False, f"{q_} defines {st_.name}: {sorted(set(truthy))[0]} picks the instance form of a class/instance method only for a *truthy* instance, so a falsy image gets the class form - "
+                          "an instance-level set/unset then changes the setting of the whole class (seen by every other instance and subclass)", stmt=f"{q_}: no truth value of its own while descriptors test `if instance`")
     for rel_, q_, fn_ in m.functions():
         if not rel_.startswith("image/") or fn_.name in ("_check_style_format_spec",):
             continue
